@@ -422,9 +422,39 @@ def run(rep, ctx):
         if first is None:
             raise AnalysisBroken("C07.G1: Violation::Check does not return a {flag, value} pair")
         return value_of(first)
-    tab = eval_cases(ck, ["A", "Z", "R"], ck_atom, ck_ret)
-    wrong = [k for k, v in tab.items() if v != (k[0] and (k[1] or k[2]))]
-    c = "cases (viol>epsabs, ref==0, |viol/ref|>epsrel) with a wrong verdict: %s" % wrong
+    try:
+        tab = eval_cases(ck, ["A", "Z", "R"], ck_atom, ck_ret)
+        wrong = [k for k, v in tab.items() if v != (k[0] and (k[1] or k[2]))]
+        c = "cases (viol>epsabs, ref==0, |viol/ref|>epsrel) with a wrong verdict: %s" % wrong
+    except AnalysisBroken:
+        # the test is written with other atoms: evaluate it on sample numbers instead (violation, reference, two tolerances)
+        wrong = []
+        for viol_ in (-1.0, 0.0, 1e-7, 0.5, 3.0):
+            for ref_ in (0.0, -2.0, 1e-3, 100.0):
+                for ea_ in (1e-6, 0.1):
+                    for er_ in (1e-6, 0.5):
+                        box = {}
+
+                        def atom(t_, n_, env_, viol_=viol_, ref_=ref_):
+                            t_ = t_.replace("this->", "")
+                            if t_ == "viol_":
+                                return viol_
+                            if t_ == "valX_":
+                                return ref_
+                            if n_["k"] == "CallExpr" and (n_.get("callee") or "").split("::")[-1] in ("fabs", "abs") and len(call_args(n_)) == 1:
+                                return abs(box["mi"].expr(call_args(n_)[0], env_, 0))
+                            if n_["k"] == "InitListExpr" or (n_["k"] in ("CXXConstructExpr", "CXXTemporaryObjectExpr") and "pair" in (n_.get("callee") or n_.get("ct") or "")):
+                                ks_ = [x for x in kids(n_) if x is not None]
+                                if ks_:
+                                    return box["mi"].expr(ks_[0], env_, 0)
+                            return None
+                        mi = MiniInt(F, atom)
+                        box["mi"] = mi
+                        got_ = mi.call(ck, [ea_, er_])
+                        want_ = viol_ > ea_ and (ref_ == 0.0 or abs(viol_ / ref_) > er_)
+                        if bool(got_) != bool(want_):
+                            wrong.append((viol_, ref_, ea_, er_, bool(got_)))
+        c = "(violation, reference, epsabs, epsrel, verdict) samples with a wrong verdict: %s" % wrong[:3]
     g1.check(not wrong, "tolerance-test", short_loc(ck.loc),
              "violated iff viol > epsabs and (reference value is 0 or |viol/ref| > epsrel) - 8 cases evaluated", c)
 
